@@ -38,7 +38,11 @@ Topos == <<
   \* 4: chain with a ticking middle component (period 3 vs connection period 2)
   [comps |-> <<C("A", "ed", 1, 0), C("Z", "tick", 3, 0), C("B", "ed", 1, 0)>>,
    conns |-> <<C("K1", "conn", 2, 0), C("K2", "conn", 1, 0)>>,
-   ports |-> <<P("A.P", "A", "K1", 1, 1), P("Z.I", "Z", "K1", 1, 1), P("Z.O", "Z", "K2", 1, 1), P("B.P", "B", "K2", 1, 1)>>]
+   ports |-> <<P("A.P", "A", "K1", 1, 1), P("Z.I", "Z", "K1", 1, 1), P("Z.O", "Z", "K2", 1, 1), P("B.P", "B", "K2", 1, 1)>>],
+  \* 5: two senders back-pressured by two receivers that stall for different lengths (one connection)
+  [comps |-> <<C("A", "ed", 1, 0), C("B", "ed", 1, 0), C("X", "ed", 1, 1), C("Y", "ed", 1, 2)>>,
+   conns |-> <<C("K1", "conn", 1, 0)>>,
+   ports |-> <<P("A.P", "A", "K1", 1, 1), P("B.P", "B", "K1", 1, 1), P("X.P", "X", "K1", 1, 1), P("Y.P", "Y", "K1", 1, 1)>>]
 >>
 T == Topos[TopoId]
 Range(s) == {s[i] : i \in DOMAIN s}
